@@ -157,7 +157,7 @@ def make_slice_harness(k):
 
 
 # ------------------------------------------------------------- re-encoding
-def h_reencode_pdu(form_sel, r0, r1, v0, v1, v2):
+def h_reencode_pdu(form_sel, r0, r1, v0, v1, v2, e0=0):
     import x690
     import puresnmp.pdu  # noqa: F401  (registers the PDU classes with x690)
     import puresnmp.types  # noqa: F401
@@ -166,15 +166,21 @@ def h_reencode_pdu(form_sel, r0, r1, v0, v1, v2):
     val_c = bytes([v0, v1, v2])
     vb = ber.tlv(ber.T_SEQ, ber.tlv(ber.T_OID, ber.enc_oid(OID0), form) + ber.tlv(ber.T_C32, val_c, form), form)
     vb2 = ber.tlv(ber.T_SEQ, ber.tlv(ber.T_OID, ber.enc_oid(C.O("1.2.0")), form) + ber.tlv(ber.T_STR, val_c, form), form)
+    # error-status 0 with an arbitrary error-index (an independent field of the PDU)
     raw = ber.tlv(ber.P_RESPONSE, ber.tlv(ber.T_INT, rid_c, form) + ber.tlv(ber.T_INT, b"\x00", form)
-                  + ber.tlv(ber.T_INT, b"\x00", form) + ber.tlv(ber.T_SEQ, vb + vb2, form), form)
+                  + ber.tlv(ber.T_INT, bytes([e0]), form) + ber.tlv(ber.T_SEQ, vb + vb2, form), form)
     obj, nxt = x690.decode(raw)
-    obj.value  # force the lazy decoding, as the client does
+    content = obj.value  # force the lazy decoding, as the client does
     again = bytes(obj)
+    # and the decoded content itself, re-encoded through the PDU class
+    rebuilt = bytes(type(obj)(content))
     reached()
     a, _ = ber.dec_pdu(raw, 0)
     b, end = ber.dec_pdu(again, 0)
-    return a == b and end == len(again) and nxt == len(raw)
+    c, _ = ber.dec_pdu(rebuilt, 0)
+    fields = (content.request_id == a.request_id and content.error_status == 0 and content.error_index == a.f2
+              and len(content.varbinds) == 2)
+    return a == b and a == c and fields and end == len(again) and nxt == len(raw)
 
 
 BYTEVALS = [0, 255, 127, 128, 1]
@@ -310,7 +316,7 @@ def jobs(tier):
     for k in (1, 2, 3, 4):
         out.append(Job(f"slice-longform-{k}", make_slice_harness(k), [Arg("total", 8, 12)] + [Arg(f"l{i}", 0, 255) for i in range(k)],
                        timeout=300, mode="T", functions=["x690.util:get_value_slice", "x690.util:decode_length"]))
-    out.append(Job("reencode-pdu", h_reencode_pdu, [Arg("form", 0, 4)] + [Arg(x, 0, 255) for x in ("r0", "r1", "v0", "v1", "v2")],
+    out.append(Job("reencode-pdu", h_reencode_pdu, [Arg("form", 0, 4)] + [Arg(x, 0, 255) for x in ("r0", "r1", "v0", "v1", "v2", "e0")],
                    timeout=400, mode="T", functions=["puresnmp.pdu:PDU.decode_raw", "x690.types:X690Type.__bytes__"]))
     out.append(Job("reencode-usm", h_reencode_usm, [Arg("form", 0, 4), Arg("b0", 0, 4), Arg("b1", 0, 1), Arg("t0", 0, 4), Arg("t1", 0, 1), Arg("a0", 0, 1 if quick else 4)],
                    timeout=400, mode="E/concolic-window", sample_every=31, functions=["puresnmp_plugins.security.usm:USMSecurityParameters.decode",
